@@ -17,6 +17,7 @@ import (
 	"verif/harness/internal/core"
 	"verif/harness/internal/gen"
 	"verif/harness/internal/run"
+	"verif/harness/internal/seq"
 )
 
 // C08: prefix-compressed record lists, at the index.Index API with the
@@ -120,9 +121,60 @@ func c08Cases(tier string) int {
 	}
 	n := len(c08Prefixes(nk)) * len(c08ExhConfigs(tier))
 	if tier == "thorough" {
-		return n + c08RandomThorough/c08RandomPerCase
+		return n + c08RandomThorough/c08RandomPerCase + c08StoreCases(tier)
 	}
-	return n + c08RandomQuick/c08RandomPerCase
+	return n + c08RandomQuick/c08RandomPerCase + c08StoreCases(tier)
+}
+
+func c08StoreCases(tier string) int { return tierN(tier, 64, 1200) }
+
+// runC08Store: the same question asked through the real primaries. Index.Put fetches the previous
+// entry's full key from the primary (GetIndexKey) when it has to lengthen stored prefixes, so the
+// key encodings matter: multihashes with multi-byte codes and digests of 128 bytes and more
+// (two-byte length varint), CIDv0/v1. All keys of a case fall in ONE bucket; lock-step reference map
+// plus fsck's structural clauses (sorted, prefix-free, prefix of own key) after every flush.
+func runC08Store(c run.Ctx, j int) *core.CaseResult {
+	r := gen.Rng(c.Seed, propStream("C08store"), uint64(j))
+	primary := gen.MH
+	if r.IntN(3) == 0 {
+		primary = gen.CID
+	}
+	bits := []uint8{8, 8, 12, 16}[r.IntN(4)]
+	var group []gen.Key
+	desc := ""
+	for t := 0; t < 200 && len(group) < 4; t++ {
+		u := gen.MakeUniverse(r, primary, 16+r.IntN(24))
+		by := map[uint32][]gen.Key{}
+		for _, k := range u.Keys {
+			b := gen.Bucket(k.Digest, bits)
+			by[b] = append(by[b], k)
+		}
+		var best uint32
+		for b, ks := range by {
+			if len(ks) > len(by[best]) || (len(ks) == len(by[best]) && b < best) {
+				best = b
+			}
+		}
+		group, desc = by[best], u.Desc
+	}
+	if len(group) > 14 {
+		group = group[:14]
+	}
+	u := gen.Universe{Keys: group, Desc: "one bucket of (" + desc + ")"}
+	cfg := gen.Config{Primary: primary, Bits: bits, IndexFileSize: []uint32{100, 1024, gen.DefaultFileSize}[r.IntN(3)], PrimaryFileSize: []uint32{300, 4096, gen.DefaultFileSize}[r.IntN(3)], FileCache: []int{0, 2, 512}[r.IntN(3)]}
+	ops := seq.GenOps(r, seq.Profile{N: 60 + r.IntN(120), Keys: len(u.Keys), RemoveHeavy: true, Reopen: r.IntN(3) == 0, NoHuge: true})
+	res := runSeq(c, seqCase{cfg, u, ops}, seq.Opts{FsckAtFlush: true}, func(res *core.CaseResult) bool {
+		return res.Stats["fsck_states_flush"] >= 2 && len(u.Keys) >= 4
+	})
+	res.Add("store_level_sequences", 1)
+	multi := 0
+	for _, k := range u.Keys {
+		if len(k.Raw)-len(k.Digest) > 2 {
+			multi++
+		}
+	}
+	res.Add("store_level_keys_with_multibyte_code_or_length", int64(multi))
+	return res
 }
 
 func init() {
@@ -131,7 +183,7 @@ func init() {
 		Level: "exploration",
 		Cases: c08Cases,
 		Run:   runC08,
-		Rule: "exhaustive part: keys = fixed bucket bytes + 3 symbols over {0x10,0x20} (8 keys quick, 6 keys thorough: every shared-prefix shape), ALL valid sequences up to length L (quick 5, thorough 6) over {Put k (absent), Update k (present), Remove k (present), Flush}, each executed twice (as generated; with a Flush after every operation) against index.Index with the in-memory primary; after every operation every key is looked up and, where the bucket is flushed, the stored prefixes are read back through Index.NewIterator and checked (sorted, pairwise prefix-free, prefix of own key, other keys' entries untouched); the as-generated run ends with flush, close, removal of the saved bucket table and a rescanning reopen, after which every key is looked up again. One case = all extensions of one valid length-2 prefix. Random part: sequences of 50-300 operations over alphabets of 2-4 symbols, key length 4-12 after the bucket bytes, bits in {8,12,16,24}. " +
+		Rule: "exhaustive part: keys = fixed bucket bytes + 3 symbols over {0x10,0x20} (8 keys quick, 6 keys thorough: every shared-prefix shape), ALL valid sequences up to length L (quick 5, thorough 6) over {Put k (absent), Update k (present), Remove k (present), Flush}, each executed twice (as generated; with a Flush after every operation) against index.Index with the in-memory primary; after every operation every key is looked up and, where the bucket is flushed, the stored prefixes are read back through Index.NewIterator and checked (sorted, pairwise prefix-free, prefix of own key, other keys' entries untouched); the as-generated run ends with flush, close, removal of the saved bucket table and a rescanning reopen, after which every key is looked up again. One case = all extensions of one valid length-2 prefix. Random part: sequences of 50-300 operations over alphabets of 2-4 symbols, key length 4-12 after the bucket bytes, bits in {8,12,16,24}. Store-level part (last 64/1200 cases): the same question through the real multihash and CID primaries (whose GetIndexKey supplies the previous entry's full key): 4-14 keys of ONE bucket taken from the hostile universes (multi-byte hash codes, digests up to 200 bytes, CIDv0/v1), histories of 60-180 store calls with flushes and reopens against the reference map, with fsck's structural clauses after every flush. " +
 			"non-trivial iff the case observed a stored prefix being lengthened (the previous-key branch), an insert between two entries, an update and a removal; distinct = hash of the set of final record lists seen",
 		Assumptions: []string{
 			"Update and Remove are only issued for present keys and Put only for absent keys (the store checks the full key first)",
@@ -460,6 +512,8 @@ func runC08(c run.Ctx) *core.CaseResult {
 		if c.Index < 2 {
 			res.Sample = map[string]any{"case": c.ID(), "kind": "exhaustive", "bits": bits, "prefix": fmt.Sprint(pre), "keys": fmt.Sprintf("%x", keys), "sequences_run": count}
 		}
+	} else if j := c.Index - nExh - map[bool]int{true: c08RandomThorough, false: c08RandomQuick}[c.Tier == "thorough"]/c08RandomPerCase; j >= 0 {
+		return runC08Store(c, j)
 	} else {
 		// random part
 		r := gen.Rng(c.Seed, propStream("C08"), uint64(c.Index))
